@@ -330,3 +330,29 @@ func init() {
 		}
 	})
 }
+
+// ------------------------------------------------------------------ C13.R9
+// Order of persistence and execution while syncing (all three reactor versions): the block is stored before
+// it is executed, as the commit pipeline of consensus does — the handshake can repair "stored, not yet
+// applied", but not "applied, not stored".
+func init() {
+	register("C13", "R9", "K2", "block sync persists a block before executing it (v0, v1, v2)", 3, func(c *Ctx) {
+		w := c.W
+		n := 0
+		for _, f := range w.Funcs {
+			if !strings.HasPrefix(relPkg(f), "blockchain/") {
+				continue
+			}
+			saves := w.callsTo(f, "store#BlockStore.SaveBlock", "blockchain/v2#processorContext.saveBlock")
+			applies := w.callsTo(f, specApply, "blockchain/v2#processorContext.applyBlock")
+			if len(saves) == 0 || len(applies) == 0 {
+				continue
+			}
+			n++
+			sv, ap := saves[0], applies[0]
+			okOrder, _ := mustPrecede(f, ap, func(in ssa.Instruction) bool { return in == sv })
+			c.Check(okOrder, funcKey(f)+" :: block stored before it is executed", w.ipos(ap), "SaveBlock precedes ApplyBlock", "ApplyBlock can run without the block having been stored: a crash in between leaves state and application ahead of the block store, which the handshake cannot repair")
+		}
+		c.Check(n >= 3, "block sync save/apply sites", "-", fmt.Sprintf("%d", n), fmt.Sprintf("only %d", n))
+	})
+}
